@@ -582,7 +582,7 @@ class ChemicalIndexer(Indexer):
         if self._chemicals is other._chemicals:
             self.data -= other.sum_across_phases()
         else:
-            other_data = other.data
+            other_data = other.sum_across_phases()
             left_index, right_index = index_overlap(self._chemicals, other._chemicals, [*other_data.nonzero_keys()])
             self.data[left_index] -= other_data[right_index]
     
